@@ -1,6 +1,7 @@
 //@@ unit c08_select properties=C08
 #![allow(unused_imports, dead_code, unused_variables, unused_mut)]
 use vstd::prelude::*;
+use vstd::std_specs::iter::IteratorSpec;
 
 //@@ include prelude/kernel_model.rs
 
@@ -117,6 +118,25 @@ pub proof fn lemma_suffix(events: Seq<Event>, lo: int, from: u64, after: int)
     proof {
         lemma_suffix(continuity_events@, __i0 as int, from_seq, after_seq as int);
     }
+//@@ end
+
+// ---- reply text of a run: the concatenation of its text deltas, in stream order -------------------------------
+pub open spec fn deltas_upto(ev: Seq<Event>, n: int) -> Seq<char>
+    decreases n
+{
+    if n <= 0 { Seq::empty() } else {
+        let rest = deltas_upto(ev, n - 1);
+        match ev[n - 1].kind { EventKind::OutputTextDelta { delta } => rest + delta@, _ => rest }
+    }
+}
+//@@ fn crates/ripd/src/context_compiler.rs aggregate_output_text_from_events
+//@@ sig
+    ensures ret@ == deltas_upto(events@, events@.len() as int),          // [aggregate_output_text.exact_concatenation_of_deltas_in_order]
+//@@ loop 0 iter=it0
+    invariant
+        it0.snapshot@.remaining().len() == events@.len(),
+        forall|k: int| 0 <= k < events@.len() ==> *(#[trigger] it0.snapshot@.remaining()[k]) == events@[k],
+        out@ == deltas_upto(events@, it0.index@),
 //@@ end
 
 } // verus!
